@@ -361,8 +361,8 @@ func (r *srun) snap() SSnap {
 
 // SParams: concrete choices.
 type SParams struct {
-	Salt int  `json:"salt"`
-	Slow bool `json:"slow"`
+	Salt  int `json:"salt"`
+	Level int `json:"level"`
 }
 
 type SResult struct {
@@ -381,7 +381,7 @@ func RunS(t *STable, steps []SStep, p SParams) *SResult {
 		res.Diff = "script not in the model table"
 		return res
 	}
-	r := &srun{tm: timingFor(p.Slow), byP: map[int]*sconn{}}
+	r := &srun{tm: timingFor(p.Level), byP: map[int]*sconn{}}
 	r.srv = server.New(neverCfg())
 	if p.Salt&1 != 0 {
 		r.srv.KeepAlive = stream.KeepAliveConfig{} // keep-alives off: the loop must not depend on them
@@ -445,7 +445,14 @@ func RunS(t *STable, steps []SStep, p SParams) *SResult {
 		switch st.E {
 		case "start":
 			r.done = make(chan error, 1)
-			go func() { r.done <- r.srv.Serve(r.ctx, r.il) }()
+			go func() {
+				defer func() {
+					if p := recover(); p != nil {
+						r.done <- fmt.Errorf("PANIC in Serve: %v", p)
+					}
+				}()
+				r.done <- r.srv.Serve(r.ctx, r.il)
+			}()
 		case "dial":
 			sc := &sconn{release: make(chan struct{})}
 			c, err := net.DialTimeout("tcp", ln.Addr().String(), 3*time.Second)
